@@ -54,28 +54,35 @@ CODE_VERSION = json.load(open(os.path.join(SPEC, "code_version.json")))
 FORK = dict(
     Parent=[-1, 0, 1, 2, 1, 4, 5],
     TxPays=[1, 0, 2, 0], TxSpends=[0, 1, 0, 5], ExtScript=[3],
-    BlockTxs=[[], [], [1, 3], [2], [3], [1, 2], [4]],
-    StartB=0, StartT=1, InitWatch=[1, 105], InitChain=[0, 1, 2], InitFH=2,
-    Updates=[dict(add=[2], rw=1), dict(add=[2], rw=0)])
+    BlockTxs=[[], [], [1, 3], [2, 4], [3], [1, 2, 4], []],
+    StartB=0, StartT=1, InitWatch=[1], InitChain=[0, 1, 2], InitFH=2,
+    Updates=[dict(add=[2, 105], rw=1), dict(add=[2, 105], rw=0)])
 
 UNIVERSES = {
     # fork after block 1; A-branch 2,3 ; B-branch 4(2'),5(3'),6(4').  T1 pays the
     # watched address 1, T2 spends that output (in the next block on A, in the
-    # same block on B), T3 pays address 2 (added by the update), T4 spends the
-    # watched external outpoint.
+    # same block on B), T3 pays address 2 and T4 spends the external outpoint
+    # 5 (both added by the update, with or without rewind).
     "fork": FORK,
     # the same tree entered at the tip: the rescan is current at once and the
-    # reorganisation reaches it through notifications
-    "tip": dict(FORK, InitChain=[0, 1, 2, 3], InitFH=3, StartB=2),
+    # reorganisation reaches it through notifications; the external outpoint is
+    # watched from the start (WatchInputs)
+    "tip": dict(FORK, InitChain=[0, 1, 2, 3], InitFH=3, StartB=2, InitWatch=[1, 105]),
     # start time after height 2: blocks 1,2 are not scanned; start below the fork
-    "late": dict(FORK, StartT=3, InitChain=[0, 1, 2, 3], InitFH=3, StartB=1,
+    "late": dict(FORK, StartT=3, InitChain=[0, 1, 2, 3], InitFH=3, StartB=1, InitWatch=[1, 105],
                  BlockTxs=[[], [3], [1], [2], [1], [2, 3], [4]],
                  Updates=[dict(add=[2], rw=2), dict(add=[101], rw=1)]),
     # filter headers trail block headers
     "lag": dict(FORK, InitChain=[0, 1, 2], InitFH=1, Lag=True),
-    # empty watch list (the configuration of the repository's own tests is a
-    # watch list that matches nothing)
+    # empty watch list at the start
     "nowatch": dict(FORK, InitWatch=[], Updates=[dict(add=[1], rw=1)]),
+    # a longer main branch 1-2-3-4 with a fork after 2 (5 = 3', 6 = 4'): several
+    # blocks can wait in the retry queue while the chain reorganises under them
+    "retry": dict(Parent=[-1, 0, 1, 2, 3, 2, 5],
+                  TxPays=[1, 0], TxSpends=[0, 1], ExtScript=[],
+                  BlockTxs=[[], [], [], [1], [2], [1], [2]],
+                  StartB=1, StartT=1, InitWatch=[1], InitChain=[0, 1, 2], InitFH=2,
+                  Updates=[dict(add=[2], rw=1)]),
 }
 
 
@@ -127,6 +134,7 @@ SCENARIOS = {
         ("fork", dict(MaxExt=2, MaxRb=2, StaleFilterOK=True)),
         ("tip", dict(MaxExt=2, MaxRb=2, MaxFail=2, MaxUpd=0)),
         ("lag", dict(MaxExt=2, MaxRb=1, MaxUpd=0, Lag=True, MaxNotCur=1)),
+        ("retry", dict(MaxExt=3, MaxRb=2, MaxFail=2, MaxUpd=0)),
     ],
     "thorough": [
         ("fork", dict(MaxExt=3, MaxRb=3, MaxFail=2, StaleFilterOK=True, WithQuit=True, MaxNotCur=1)),
@@ -134,6 +142,7 @@ SCENARIOS = {
         ("late", dict(MaxExt=3, MaxRb=2, MaxFail=1, StaleFilterOK=True)),
         ("lag", dict(MaxExt=3, MaxRb=2, MaxFail=1, Lag=True, MaxNotCur=1)),
         ("nowatch", dict(MaxExt=3, MaxRb=2, MaxFail=1, MaxNotCur=1)),
+        ("retry", dict(MaxExt=4, MaxRb=2, MaxFail=2, MaxUpd=1, StaleFilterOK=True)),
     ],
 }
 
@@ -198,67 +207,84 @@ class _Agg:
             self.edges += g.edges
 
 
+def _scenario(k, uname, over, prop_id, tier, seed, sc, binary, replay):
+    """model -> paths -> real rescan -> judge, for one universe."""
+    rng = random.Random("%d/%s/%d" % (seed, uname, k))
+    u = universe(uname)
+    ud = os.path.join(sc, "u%d" % k)
+    uj = write_universe(u, ud)
+    pf = os.path.join(sc, "paths%d.ndjson" % k)
+    consts = None
+    if replay:
+        family.paths_from_replay(replay, pf)
+        tlc, g, paths, unreach = family._NoTLC(), None, [0], 0
+    else:
+        consts = dict(BASE)
+        consts.update(over)
+        consts["Lag"] = bool(u["Lag"])
+        consts.update(CODE_VERSION)
+        tlc = core.run_tlc([SPEC, ud], "Rescan", consts, workers=1, invariants=["TypeOK"],
+                           workdir=os.path.join(sc, "tlc%d" % k), timeout=3000)
+        if not tlc.ok:
+            raise core.MachineryError("TLC on Rescan (%s) failed: %s\n%s" % (
+                uname, tlc.error, tlc.stdout_tail[-3000:]))
+        g = core.Graph.load(tlc)
+        if len(g.ids) != tlc.distinct:
+            raise core.MachineryError("graph export of Rescan (%s) has %d nodes, TLC found %d states" % (
+                uname, len(g.ids), tlc.distinct))
+        paths, unreach = core.edge_cover(g, rng)
+        if tier == "thorough":
+            paths += core.random_walks(g, 1500, 60, rng)
+        core.write_paths(g, paths, pf)
+        shutil.rmtree(os.path.join(sc, "tlc%d" % k), ignore_errors=True)
+    sd = os.path.join(sc, "run%d" % k)
+    os.makedirs(sd, exist_ok=True)
+    obs, log = family.run_driver(binary, "TestVerifRescanReplay", pf, os.path.join(sc, "obs%d.ndjson" % k), sd,
+                                 env_extra={"VERIF_UNIVERSE": uj})
+    v = family.judge([SPEC, ud], "RescanProps", PROPS[prop_id], prop_id, obs, label=label)
+    (a, b, c), nr = drift(pf, obs)
+    # make trace ids unique over scenarios, remember the universe for replays
+    for t in obs:
+        t["uni"] = uname
+        t["id"] = "%s/%s" % (uname, t["id"])
+    for x in v["violations"]:
+        x["trace"] = "%s/%s" % (uname, x["trace"])
+    for x in c:
+        x["trace"] = "%s/%s" % (uname, x["trace"])
+    info = {"universe": uname, "config": consts, "states": tlc.distinct,
+            "edges": len(g.edges) if g else 0,
+            "model_violating_edges": sum(1 for e in g.edges if e[4]) if g else 0,
+            "paths": len(paths), "tlc_wall_s": round(tlc.wall, 1),
+            "callbacks_observed": sum(len(s["obs"]["ev"]) for t in obs for s in t["steps"]),
+            "timer_races": nr}
+    return dict(tlc=tlc, g=g, paths=paths, unreach=unreach, obs=obs, v=v, drift=(a, b, c), races=nr, info=info)
+
+
 def run(prop_id, tier, seed, replay=None):
+    from concurrent.futures import ThreadPoolExecutor
     t0 = time.time()
-    rng = random.Random(seed)
     sc = core.scratch("rs")
     try:
         binary = family.build_overlay_test(PKG, [DRIVER], os.path.join(sc, "neutrino.test"))
-        agg = _Agg()
-        observed, all_paths = [], []
-        verdict = {"violations": [], "known": {}, "n_lines": 0, "wall": 0.0, "raw": 0}
-        dr = [0, 0, []]
-        races = unreach_total = 0
-        per = []
         if replay:
             d = json.load(open(replay))
             scen = [(d["trace"].get("uni", "fork"), None)]
         else:
             scen = SCENARIOS[tier]
-        for k, (uname, over) in enumerate(scen):
-            u = universe(uname)
-            ud = os.path.join(sc, "u%d" % k)
-            uj = write_universe(u, ud)
-            pf = os.path.join(sc, "paths%d.ndjson" % k)
-            consts = None
-            if replay:
-                family.paths_from_replay(replay, pf)
-                tlc, g, paths, unreach = family._NoTLC(), None, [0], 0
-            else:
-                consts = dict(BASE)
-                consts.update(over)
-                consts["Lag"] = bool(u["Lag"])
-                consts.update(CODE_VERSION)
-                tlc = core.run_tlc([SPEC, ud], "Rescan", consts, workers=1, invariants=["TypeOK"],
-                                   workdir=os.path.join(sc, "tlc%d" % k), timeout=3000)
-                if not tlc.ok:
-                    raise core.MachineryError("TLC on Rescan (%s) failed: %s\n%s" % (
-                        uname, tlc.error, tlc.stdout_tail[-3000:]))
-                g = core.Graph.load(tlc)
-                if len(g.ids) != tlc.distinct:
-                    raise core.MachineryError("graph export of Rescan (%s) has %d nodes, TLC found %d states" % (
-                        uname, len(g.ids), tlc.distinct))
-                paths, unreach = core.edge_cover(g, rng)
-                if tier == "thorough":
-                    paths += core.random_walks(g, 1500, 60, rng)
-                core.write_paths(g, paths, pf)
-                shutil.rmtree(os.path.join(sc, "tlc%d" % k), ignore_errors=True)
-            obs, log = family.run_driver(binary, "TestVerifRescanReplay", pf,
-                                         os.path.join(sc, "obs%d.ndjson" % k), sc,
-                                         env_extra={"VERIF_UNIVERSE": uj})
-            v = family.judge([SPEC, ud], "RescanProps", PROPS[prop_id], prop_id, obs, label=label)
-            (a, b, c), nr = drift(pf, obs)
-            # make trace ids unique over scenarios, remember the universe for replays
-            for t in obs:
-                t["uni"] = uname
-                t["id"] = "%s/%s" % (uname, t["id"])
-            for x in v["violations"]:
-                x["trace"] = "%s/%s" % (uname, x["trace"])
-            for x in c:
-                x["trace"] = "%s/%s" % (uname, x["trace"])
-            observed += obs
-            all_paths += paths
-            agg.add(tlc, g)
+        with ThreadPoolExecutor(max_workers=3) as ex:
+            futs = [ex.submit(_scenario, k, uname, over, prop_id, tier, seed, sc, binary, replay)
+                    for k, (uname, over) in enumerate(scen)]
+            res = [f.result() for f in futs]
+        agg = _Agg()
+        observed, all_paths, per = [], [], []
+        verdict = {"violations": [], "known": {}, "n_lines": 0, "wall": 0.0, "raw": 0}
+        dr = [0, 0, []]
+        races = unreach_total = 0
+        for r in res:
+            observed += r["obs"]
+            all_paths += r["paths"]
+            agg.add(r["tlc"], r["g"])
+            v = r["v"]
             verdict["violations"] += v["violations"]
             for kid, kv in v["known"].items():
                 if kid in verdict["known"]:
@@ -267,17 +293,12 @@ def run(prop_id, tier, seed, replay=None):
                     verdict["known"][kid] = kv
             verdict["n_lines"] += v["n_lines"]
             verdict["raw"] += v["raw"]
-            dr[0] += a
-            dr[1] += b
-            dr[2] += c
-            races += nr
-            unreach_total += unreach
-            per.append({"universe": uname, "config": consts, "states": tlc.distinct,
-                        "edges": len(g.edges) if g else 0,
-                        "model_violating_edges": sum(1 for e in g.edges if e[4]) if g else 0,
-                        "paths": len(paths), "tlc_wall_s": round(tlc.wall, 1),
-                        "callbacks_observed": sum(len(s["obs"]["ev"]) for t in obs for s in t["steps"]),
-                        "timer_races": nr})
+            dr[0] += r["drift"][0]
+            dr[1] += r["drift"][1]
+            dr[2] += r["drift"][2]
+            races += r["races"]
+            unreach_total += r["unreach"]
+            per.append(r["info"])
         dr[2] = dr[2][:5]
         return family.finish(prop_id, tier, seed, t0, agg, agg if agg.edges else None, all_paths, observed,
                              verdict, tuple(dr),
